@@ -44,6 +44,7 @@ Profile GetProfile(const std::string& name, bool thorough) {
     p.enumerate_faults = thorough;
   } else if (name == "C16") {
     p.pm_cmd_fail = 150; p.gen.features |= F_RSP | F_HOSTILE_NAMES;
+    p.pm_io_error = 120;   // a response file that could not be written in full must not reach a command
   } else if (name == "C20") {
     p.pm_cmd_fail = 120; p.pm_tty = 400; p.hostile_output = true; p.gen.features |= F_CONSOLE;
     p.pm_interrupt = 120;   // output held back for a console command must survive an interrupted build
@@ -1331,9 +1332,11 @@ struct Driver {
   // C13: storage damage - any bytes may be found in the logs, depfiles, dyndep
   // files or a (re)generated manifest.
   std::string DamageBytes(std::string b) {
-    uint32_t kind = H(7);
+    uint32_t kind = H(9);
     if (b.empty()) kind = 1;
     switch (kind) {
+      case 7: b.erase(0, 1 + H((uint32_t)b.size())); break;                                // lost beginning (the file starts mid-way)
+      case 8: { size_t at = H((uint32_t)b.size()), n = 1 + H(32); for (size_t i = 0; i < n && at + i < b.size(); i++) b[at + i] = '\0'; break; }   // a zeroed block inside
       case 0: b.resize(H((uint32_t)b.size() + 1)); break;                                 // truncate
       case 1: { int n = 1 + (int)H(64); for (int i = 0; i < n; i++) b += (char)H(256); break; }   // garbage tail
       case 2: { size_t at = H((uint32_t)b.size()); b[at] = (char)(b[at] ^ (1 << H(8))); break; }  // bit flip
